@@ -305,6 +305,7 @@ func (e *Engine) inline(st *state, fr *frame, in ssa.CallInstruction, fn *ssa.Fu
 	var groups []*group
 	idx := map[string]*group{}
 	var res []callRes
+	outs = mergePureForks(st, outs, startID)
 	for _, o := range outs {
 		switch o.kind {
 		case oReturn:
@@ -529,6 +530,22 @@ func (e *Engine) model(st *state, fr *frame, in ssa.CallInstruction, fn *ssa.Fun
 			it = data.Type
 			src = data
 		}
+		if sl, isSlice := it.Underlying().(*types.Slice); isSlice {
+			if esz, okE := fixedSize(sl.Elem()); okE {
+				// bulk write: every element in index order, each in the given byte order (encoding/binary axiom)
+				eo := ord
+				if esz == 1 {
+					eo = ""
+				}
+				content := e.contentOf(st, src)
+				lid := e.id()
+				lv := &Val{Op: "loopvar", ID: lid, Name: "bulk", Type: types.Typ[types.Int], Args: []*Val{mkInt(0)}, Aux: int64(1)}
+				elem := &Val{Op: "elem", Args: []*Val{content, lv}, Type: sl.Elem()}
+				inner := &Event{ID: e.id(), Kind: EvWriteInt, Buf: w, IntType: sl.Elem(), Order: eo, Src: elem, Size: mkInt(esz), Fn: fr.fn, Site: fr.site, Instr: in, Pos: in.Pos(), NCond: len(st.conds)}
+				e.addEvent(st, fr, &Event{Kind: EvRep, LoopID: lid, Count: mkLen(content), Bounded: "bulk", Iter: []*Arm{{Events: []*Event{inner}, Next: map[string]*Val{}}}}, in)
+				return one(st, mkNil(errT)), true
+			}
+		}
 		sz, ok := fixedSize(it)
 		if !ok {
 			e.addEvent(st, fr, &Event{Kind: EvBufOther, Mode: "binary.Write of a value without fixed size (" + typeStr(it) + ")", Buf: w, Src: src}, in)
@@ -543,6 +560,34 @@ func (e *Engine) model(st *state, fr *frame, in ssa.CallInstruction, fn *ssa.Fun
 		r, ord, data := stripIface(args[0]), orderOf(args[1]), stripIface(args[2])
 		if !isBufferType(r.Type) {
 			break
+		}
+		if sl, isSlice := data.Type.Underlying().(*types.Slice); isSlice {
+			if esz, okE := fixedSize(sl.Elem()); okE {
+				// bulk read: fills the slice element by element; fails if the buffer runs out
+				eo := ord
+				if esz == 1 {
+					eo = ""
+				}
+				n := mkLen(data)
+				if data.Op == "makeslice" {
+					n = data.Args[0]
+				}
+				lid := e.id()
+				mkInner := func(failed bool) *Event {
+					return &Event{ID: e.id(), Kind: EvReadInt, Buf: r, IntType: sl.Elem(), Order: eo, Size: mkInt(esz), Failed: failed, Fn: fr.fn, Site: fr.site, Instr: in, Pos: in.Pos(), NCond: len(st.conds)}
+				}
+				okEv := mkInner(false)
+				arm := &Arm{Events: []*Event{okEv}, Next: map[string]*Val{}}
+				st2 := st.clone()
+				e.addEvent(st, fr, &Event{Kind: EvRep, LoopID: lid, Count: n, Bounded: "bulk", Iter: []*Arm{arm}}, in)
+				elemV := &Val{Op: "wire", ID: okEv.ID, Type: sl.Elem()}
+				e.setContent(st, data, &Val{Op: "collect", ID: lid, Args: []*Val{mkNil(data.Type), &Val{Op: "arraylit", Args: []*Val{elemV}}, n}, Type: data.Type})
+				e.addEvent(st2, fr, &Event{Kind: EvRep, LoopID: lid, Count: n, Bounded: "bulk", Iter: []*Arm{arm}, Partial: true}, in)
+				fe := mkInner(true)
+				st2.events = append(st2.events, fe)
+				e.setContent(st2, data, &Val{Op: "unknown", ID: fe.ID, Name: "partial-read", Type: data.Type})
+				return []callRes{{st: st, val: mkNil(errT)}, {st: st2, val: nonnil(fmt.Sprintf("binary.Read#%d", fe.ID))}}, true
+			}
 		}
 		p, ok := data.Type.Underlying().(*types.Pointer)
 		if !ok {
@@ -716,4 +761,116 @@ func derefsReceiver(fn *ssa.Function) bool {
 		}
 	}
 	return false
+}
+
+// mergePureForks joins callee outcomes that performed exactly the same effects (the very same events) and differ
+// only in a value computed afterwards – e.g. `if valid(b) { return string(b) }; return sanitise(b)`. The joined
+// outcome returns a `choice` of the alternatives, so a caller with k such calls has one path instead of 2^k.
+func mergePureForks(pre *state, outs []*outcome, startID int) []*outcome {
+	type bucket struct {
+		first int
+		outs  []*outcome
+	}
+	var order []string
+	buckets := map[string]*bucket{}
+	var rest []*outcome
+	for i, o := range outs {
+		if o.kind != oReturn {
+			rest = append(rest, o)
+			continue
+		}
+		var b strings.Builder
+		for _, ev := range o.st.events {
+			fmt.Fprintf(&b, "%p,", ev)
+		}
+		b.WriteString("|")
+		for _, r := range o.ret {
+			cls := "v"
+			switch {
+			case isErrorType(r.Type) || r.Op == "nonnil":
+				cls = fmt.Sprintf("e%d", nilness(r))
+			case r.Type != nil && isNilable(r.Type):
+				cls = fmt.Sprintf("n%d", nilness(r)) // callers branch on nil-ness: keep nil and non-nil results apart
+			case r.Type != nil && isBoolType(r.Type):
+				if b, ok := r.Bool(); ok {
+					cls = fmt.Sprintf("b%v", b) // callers branch on booleans: keep true and false apart
+				} else {
+					cls = "b:" + r.Key()
+				}
+			}
+			b.WriteString(cls + typeStr(r.Type) + ",")
+		}
+		full := outcomeSig(pre, o, startID)
+		// memory part of the signature only (everything after the result keys)
+		mem := full
+		for range o.ret {
+			if j := strings.Index(mem, ";"); j >= 0 {
+				mem = mem[j+1:]
+			}
+		}
+		b.WriteString("|" + mem)
+		k := b.String()
+		if buckets[k] == nil {
+			buckets[k] = &bucket{first: i}
+			order = append(order, k)
+		}
+		buckets[k].outs = append(buckets[k].outs, o)
+	}
+	var merged []*outcome
+	for _, k := range order {
+		b := buckets[k]
+		if len(b.outs) == 1 {
+			merged = append(merged, b.outs[0])
+			continue
+		}
+		o0 := *b.outs[0]
+		st2 := o0.st.clone()
+		// keep only the branch conditions all alternatives share
+		n := len(st2.conds)
+		for _, o := range b.outs[1:] {
+			m := 0
+			for m < n && m < len(o.st.conds) && o.st.conds[m].V.Key() == st2.conds[m].V.Key() && o.st.conds[m].Taken == st2.conds[m].Taken {
+				m++
+			}
+			n = m
+		}
+		st2.conds = st2.conds[:n]
+		st2.facts = map[string]bool{}
+		for k, v := range pre.facts {
+			st2.facts[k] = v
+		}
+		o0.st = st2
+		rets := make([]*Val, len(o0.ret))
+		for i := range rets {
+			var alts []*Val
+			seen := map[string]bool{}
+			for _, o := range b.outs {
+				if i < len(o.ret) && !seen[o.ret[i].Key()] {
+					seen[o.ret[i].Key()] = true
+					alts = append(alts, o.ret[i])
+				}
+			}
+			if len(alts) == 1 {
+				rets[i] = alts[0]
+			} else {
+				rets[i] = &Val{Op: "choice", Args: alts, Type: alts[0].Type}
+			}
+		}
+		o0.ret = rets
+		merged = append(merged, &o0)
+	}
+	return append(merged, rest...)
+}
+
+func isNilable(t types.Type) bool {
+	switch t.Underlying().(type) {
+	case *types.Pointer, *types.Interface, *types.Slice, *types.Map, *types.Signature, *types.Chan:
+		return true
+	}
+	return false
+}
+
+func isBoolType(t types.Type) bool {
+	b, ok := t.Underlying().(*types.Basic)
+	return ok && b.Info()&types.IsBoolean != 0
 }
